@@ -454,8 +454,11 @@ pub fn execute(plan: &Plan) -> Exec {
                             if root.meta.timestamp != fts || ch.iter().any(|j| backups[*j].meta.timestamp > ts) {
                                 continue;
                             }
-                            // a child of b that is eligible and strictly newer supersedes b
-                            let superseded = backups.iter().any(|c2| c2.parent == Some(i) && c2.meta.timestamp <= ts && c2.meta.timestamp > b.meta.timestamp);
+                            // an eligible child supersedes its parent even when both carry the same second: the child was
+                            // taken on top of the parent, so it is newer by construction (which of several eligible children
+                            // is followed is not judged)
+                            let _ = b;
+                            let superseded = backups.iter().any(|c2| c2.parent == Some(i) && c2.meta.timestamp <= ts);
                             if !superseded {
                                 acceptable.push(i);
                             }
